@@ -173,12 +173,53 @@ def norm_agree(eng, res, fi, rule="R-NORM-AGREE"):
             others = [x for x in flow.defs if x.name == den and x.kind == "assign" and _same_family(cfg, x.stmt, lp_e, init=True)]
             init_ok = any(isinstance(x.value, ast.Constant) and x.value.value == 0 for x in others)
             reset_ok = all((isinstance(x.value, ast.Constant) and x.value.value in (0, 1)) for x in others)
-            ok = coll_ok and term_ok and not missing and extra_ok and init_ok and reset_ok
+            # the reset to 1 applies only to a total that is zero: a larger threshold would rescale small real weights
+            zero_ok, zero_why = True, ""
+            resets = [x for x in flow.defs if x.name == den and x.kind == "assign" and isinstance(getattr(x.stmt, "_parent", None), ast.If)
+                      and getattr(x.stmt._parent, "_parent", None) is getattr(lp_e, "_parent", None)]
+            reset_ok = reset_ok and all(isinstance(x.value, ast.Constant) and x.value.value == 1 for x in resets)
+            for x in resets:
+                if isinstance(x.value, ast.Constant) and x.value.value == 1:
+                    b = _upper_bound_of(fi, cfg, x.stmt, den)
+                    if b is None or b > 1e-12:
+                        zero_ok, zero_why = False, f"; the normaliser is replaced by 1 below {b!r} (only a zero total may be replaced)"
+            ok = coll_ok and term_ok and not missing and extra_ok and init_ok and reset_ok and zero_ok
             why = (f"same collection: {coll_ok}; numerator is the accumulated term: {term_ok}; filter of the normaliser not in the edge filter: {sorted(missing)}; "
-                   f"extra edge filter: {sorted(extra)}; normaliser starts at 0: {init_ok}")
+                   f"extra edge filter: {sorted(extra)}; normaliser starts at 0: {init_ok}{zero_why}")
         res.ob(rule, fi, role, "normaliser loop and edge loop range over the same collection with the same filter (edges may only drop zero weights); the numerator is the accumulated term",
                s.call, ok, why)
     return n
+
+
+def _upper_bound_of(fi, cfg, stmt, name):
+    """smallest constant c with a guard `name < c` / `name <= c` / `name == 0` on every path to stmt (module constants resolved)."""
+    best = None
+    for t, pol in cfg.guard_exprs(cfg.node_of(stmt)):
+        conj = t.values if (isinstance(t, ast.BoolOp) and isinstance(t.op, ast.And) and pol) else [t]
+        for c in conj:
+            if not (isinstance(c, ast.Compare) and len(c.ops) == 1 and pol):
+                continue
+            l, op, r = c.left, c.ops[0], c.comparators[0]
+            if isinstance(r, ast.Name) and r.id == name and isinstance(op, (ast.Gt, ast.GtE)):
+                l, r, op = r, l, ast.Lt()
+            if not (isinstance(l, ast.Name) and l.id == name):
+                continue
+            v = _const_value(fi, r)
+            if v is None:
+                continue
+            if isinstance(op, (ast.Lt, ast.LtE)) or (isinstance(op, ast.Eq) and v == 0):
+                best = v if best is None else min(best, v)
+    return best
+
+
+def _const_value(fi, e):
+    if isinstance(e, ast.Constant) and isinstance(e.value, (int, float)) and not isinstance(e.value, bool):
+        return float(e.value)
+    if isinstance(e, ast.Name):
+        for st in fi.module.tree.body:
+            if isinstance(st, ast.Assign) and any(isinstance(x, ast.Name) and x.id == e.id for x in st.targets):
+                return _const_value(fi, st.value)
+    return None
 
 
 def _same_family(cfg, stmt, lp_e, init=False) -> bool:
@@ -291,6 +332,10 @@ def pool_agree(eng, res, fi, rule="R-POOL-AGREE"):
 
 
 def check(eng, res):
+    from ..fresh import fresh_flags
+
+    res.doc("R-FRESH-FLAG", "A-FRESH: no condition flag tested inside a loop keeps its value from a previous iteration")
+    fresh_flags(eng, res, {'molecule'})
     res.doc("R-NODE-COVER", "both element kinds dispatched (others raise); one node per residue and per descriptor; identity hashing")
     res.doc("R-NORM-AGREE", "for each probability family the normaliser loop and the edge loop agree on collection, filter and term")
     res.doc("R-EDGE-COMPAT", "every scalar-weight probability edge is control-dependent on is_compatible of its two endpoints")
